@@ -81,3 +81,17 @@ func VerifOwnRedis(newClient func(*redis.Options) *redis.Client) {
 	}
 	verifRedisNewClient = newClient
 }
+
+// VerifZMQRegChan returns the channel a ZMQIngester delivers registration messages into (the main
+// world stands in for the ZMQ sockets of RunZMQ and publishes into the channel main() created).
+func VerifZMQRegChan(zi *ZMQIngester) chan<- interface{} { return zi.regChan }
+
+// VerifResetStatsModules forgets the statistics modules earlier runs of main() added to the
+// process-wide Stat() singleton.
+func VerifResetStatsModules() {
+	statInstance.moduleStats = nil
+	statInstance.verboseStats = nil
+}
+
+// VerifPrintStats runs one statistics epoch of the Stat() singleton (what its tickers do).
+func VerifPrintStats(verbose bool) { statInstance.PrintStats(verbose) }
